@@ -123,6 +123,16 @@ def main():
                 names[n] = (v, src)
     for n in ambiguous:
         names.pop(n, None)
+    # hand-written supplement where neither header has the name (source given per entry)
+    EXTRA = {
+        'SHT_AMD64_UNWIND': (0x70000001, 'x86-64 psABI 4.2 (Solaris spelling of SHT_X86_64_UNWIND)'),
+        'SHT_SUNW_LDYNSYM': (0x6ffffff3, 'Oracle Linker and Libraries Guide, sections'),
+        'SHT_AARCH64_ATTRIBUTES': (0x70000003, 'AAELF64 5.3 section types'),
+        'PT_AARCH64_ARCHEXT': (0x70000000, 'AAELF64 6.1 program header'),
+        'PT_AARCH64_UNWIND': (0x70000001, 'AAELF64 6.1 program header'),
+    }
+    for n, (v, src) in EXTRA.items():
+        names.setdefault(n, (v, 'supplement: ' + src))
     # keep only names shaped like registry constants
     keep = re.compile(r'^(EM|ET|EV|ELF(CLASS|DATA|OSABI|COMPRESS)\w*|EI|SHT|SHF|SHN|PT|PF|DT|DF|DF_1|DTF|STB|STT|STV|NT|R|EF|'
                       r'VER|GNU_PROPERTY|GRP|RHF|SYMINFO|DW_\w+|ODK|STO|E_\w+|AT)_\w+$')
@@ -130,15 +140,46 @@ def main():
     data = {'names': {n: [str(v[0]), v[1]] for n, v in sorted(names.items())},
             'ambiguous': {n: [[str(a[0]), a[1]], [str(b[0]), b[1]]] for n, (a, b) in sorted(ambiguous.items())},
             'sources': ['glibc /usr/include/elf.h', 'LLVM 14 BinaryFormat ELF.h, ELFRelocs/*.def, DynamicTags.def, Dwarf.def, Dwarf.h']}
+    # name families: which names belong to the base table and which to a machine / OS overlay
+    MACH = ['ARM', 'AARCH64', 'X86_64', 'AMD64', 'MIPS', 'RISCV', 'HEX', 'HEXAGON', 'CSKY', 'PARISC', 'ALPHA', 'MSP430',
+            'IA_64', 'SPARC', 'ARC', 'AVR', 'PPC', 'PPC64', 'S390', 'M68K', 'NIOS2', 'XTENSA', 'LOONGARCH', 'AMDGPU',
+            'HP', 'C6000', 'TIC6X', 'SH', 'IA64', 'VE', 'LANAI', 'BPF', 'CUDA', 'MMA']
+    fam = {}
+    for pfx in ('SHT', 'PT', 'DT', 'EM', 'ET', 'ELFOSABI', 'STT', 'STB', 'STV', 'SHN', 'ELFCOMPRESS', 'EV', 'ELFCLASS', 'ELFDATA'):
+        for n in names:
+            if not n.startswith(pfx + '_'):
+                continue
+            rest = n[len(pfx) + 1:]
+            sub = 'BASE'
+            if pfx in ('SHT', 'PT', 'DT', 'STT', 'STB', 'SHN'):
+                for m in sorted(MACH, key=len, reverse=True):
+                    if rest.startswith(m + '_') or rest == m:
+                        sub = {'AMD64': 'X86_64', 'HEXAGON': 'HEX', 'IA64': 'IA_64'}.get(m, m)
+                        break
+                if pfx == 'DT' and rest.startswith('SUNW_'):
+                    sub = 'SUNW'
+            fam.setdefault(pfx, {}).setdefault(sub, []).append(n)
+    data['families'] = fam
     json.dump(data, open(os.path.join(HERE, 'tools', 'registry.json'), 'w'), indent=0, sort_keys=True)
+
+    def digs(v):
+        b = v.to_bytes(max(1, (v.bit_length() + 7) // 8), 'little')
+        return '<<' + ','.join(str(x) for x in b) + '>>'
     with open(os.path.join(HERE, 'spec', 'RegistryData.tla'), 'w') as f:
         f.write('---------------------------- MODULE RegistryData ----------------------------\n')
         f.write('(* VENDORED - generated by tools/mkregistry.py from glibc elf.h and LLVM 14 BinaryFormat.  *)\n')
-        f.write('(* name |-> value as a decimal string (values exceed TLC\'s 32-bit integers).            *)\n')
-        f.write('(* Names on which the sources disagree are in RegAmbiguous and are never asserted.       *)\n')
+        f.write('(* Reg: name |-> value as little-endian base-256 digits, minimal length (values exceed    *)\n')
+        f.write('(* TLC\'s 32-bit integers).  RegFam: table prefix |-> family |-> set of names; family     *)\n')
+        f.write('(* BASE is machine independent, the others are machine / OS overlays.                     *)\n')
+        f.write('(* Names on which the sources disagree are in RegAmbiguous and are never asserted.        *)\n')
         f.write('Reg == [\n')
         items = sorted(names.items())
-        f.write(',\n'.join('  %s |-> "%d"' % (n, v[0]) for n, v in items))
+        f.write(',\n'.join('  %s |-> %s' % (n, digs(v[0])) for n, v in items))
+        f.write('\n]\n\n')
+        f.write('RegFam == [\n')
+        f.write(',\n'.join('  %s |-> [%s]' % (p, ', '.join('%s |-> {%s}' % (sub, ', '.join('"%s"' % x for x in sorted(ns)))
+                                                              for sub, ns in sorted(subs.items())))
+                            for p, subs in sorted(fam.items())))
         f.write('\n]\n\n')
         f.write('RegAmbiguous == {%s}\n' % ', '.join('"%s"' % n for n in sorted(ambiguous)))
         f.write('=============================================================================\n')
